@@ -1,5 +1,5 @@
 """C12 — Session establishment negotiates a version both peers can actually speak (structural part)."""
-from vlib import facts as F, thir as T, xmlgrammar as X
+from vlib import facts as F, thir as T, xmlgrammar as X, absint as A
 from vlib.report import loc_of
 
 EXPLANATION = (
@@ -68,36 +68,62 @@ def r1_advertised(chk, fx):
     chk.instance("C12/R1", ":base:1.0 is advertised (a common version exists with every conforming server)", t["def"], loc_of(t.get("sp")),
                  holds="V1_0" in adv, key="C12/R1 base-1.0-not-advertised")
     # the only framing implemented: MARKER-based
-    chk.instance("C12/R1", "Session::new builds its hello with ClientHello::default()", "netconf::session::Session::new", None,
-                 holds="client_hello=Default::default()" in X.ntext(T.user_body(fx.thir_body("netconf::session::Session::<T>::new::{closure#0}::{closure#0}"))),
-                 key="C12/R1 Session::new hello-origin")
+
+
+AGGREGATORS = {
+    # canonical texts (first-argument chains) that yield the greatest element of an iterator of Base values
+    ("BTreeSet::last", "Iterator::collect"): "collect into an ordered set, take last()",
+    ("Iterator::max",): "Iterator::max",
+    ("Iterator::last", "Iterator::sorted"): "sort, take last",
+}
 
 
 def r2_highest(chk, fx):
+    """highest_common_version by abstract interpretation: Some(v) => Ok(v) with v = the maximum (derived Ord) of the Base values in the
+    intersection of both capability sets; nothing in common => Err(VersionNegotiation)."""
     name = "netconf::capabilities::Capabilities::highest_common_version"
-    bodies = [fx.thir[n] for n in sorted(fx.thir) if n == name or n.startswith(name + "::{closure")]
-    main = None
-    for t in bodies:
-        s = X.ntext(T.user_body(t))
-        if "HashSet::intersection(" in s:
-            main = (t, s)
-    if main is None:
-        raise F.AnchorLost("highest_common_version: intersection not found")
-    t, s = main
-    want = "Result::copied(Option::ok_or_else(BTreeSet::last(Iterator::collect(Iterator::filter_map(HashSet::intersection(self.inner,other.inner),"
-    alt = want.replace("self.inner,other.inner", "other.inner,self.inner")
-    chk.instance("C12/R2", "highest_common_version = intersection.filter_map(Base).collect::<BTreeSet>().last().ok_or_else(..).copied()",
-                 t["def"], loc_of(t.get("sp")), holds=s.startswith(want) or s.startswith(alt) or s.startswith("{" + want), key="C12/R2 highest_common_version chain",
-                 detail=s[:200])
-    col = [c for c in T.calls(T.user_body(t), "Iterator::collect")]
-    ok = bool(col) and any("BTreeSet<netconf::capabilities::Base>" in g for g in col[0].get("gargs", []))
-    chk.instance("C12/R2", "the common versions are collected into an ordered BTreeSet<Base>", t["def"], loc_of(t.get("sp")), holds=ok,
+    if name not in fx.thir:
+        raise F.AnchorLost(name)
+    t = fx.thir[name]
+    chk.analysed(name)
+    it = A.Interp(fx, crates=("netconf",))
+    it.model_iterators = False
+    paths = it.explore(name)
+    oks = [p for p in paths if A.is_res(p.ret) and p.ret[2] == "Ok"]
+    errs = [p for p in paths if A.is_res(p.ret) and p.ret[2] == "Err"]
+    good, detail = bool(oks) and bool(errs) and len(oks) + len(errs) == len(paths), None
+    filt_ok = True
+    for p in oks:
+        v = A.payload0(p.ret)
+        ch, root = call_chain(v)
+        agg = None
+        for k in AGGREGATORS:
+            if tuple(ch[:len(k)]) == k:
+                agg = k
+        rest = ch[len(agg):] if agg else ch
+        inter = [x for x in A.walk_value(v) if x[0] == "term" and T.short(x[1], 2) == "HashSet::intersection"]
+        roots = sorted(A.vstr(a) for x in inter for a in x[2])
+        both = len(inter) == 1 and any("self" in r for r in roots) and any("other" in r for r in roots) and all(r.endswith(".inner") for r in roots)
+        if agg is None or rest[:2] != ["Iterator::filter_map", "HashSet::intersection"] or not both:
+            good, detail = False, " <- ".join(ch) + " over " + ",".join(roots)
+        # the filter keeps exactly the Base entries, as their version
+        fm = [x for x in A.walk_value(v) if x[0] == "term" and T.short(x[1], 2) == "Iterator::filter_map"]
+        for x in fm:
+            clo = x[2][1]
+            sub = A.Interp(fx, crates=("netconf",))
+            sub.trace, sub.assume, sub._script, sub._pos, sub._taken, sub._alts, sub._sym, sub._occ = [], {}, [], 0, [], [], 0, {}
+            CAP = "netconf::capabilities::Capability"
+            r1 = sub.apply(clo, [("adt", CAP, "Base", (("0", ("sym", "V")),))], {"sp": None}, 0)
+            r2 = sub.apply(clo, [("adt", CAP, "Candidate", ())], {"sp": None}, 0)
+            if not (r1 == A.some(("sym", "V")) and r2 == A.NONE and not sub._alts):
+                filt_ok = False
+    chk.instance("C12/R2", "highest_common_version = greatest Base of (client ∩ server), by %s" % sorted(AGGREGATORS.values()), name, loc_of(t.get("sp")),
+                 holds=good, key="C12/R2 highest_common_version chain", detail=detail)
+    chk.instance("C12/R2", "the common versions are ordered by Base's derived Ord (collected into a BTreeSet / max())", name, loc_of(t.get("sp")), holds=good,
                  key="C12/R2 highest_common_version collection-type")
-    txt = " ".join(X.ntext(T.user_body(b)) for b in bodies)
-    chk.instance("C12/R2", "only Capability::Base(v) entries are kept, as v", t["def"], None,
-                 holds="ifletCapability::Base(base)=capability{Option::Some(base)}else{Option::None}" in txt, key="C12/R2 filter-closure")
-    chk.instance("C12/R2", "no common version => Error::VersionNegotiation", t["def"], None, holds="Error::VersionNegotiation" in txt,
-                 key="C12/R2 no-common-version-error")
+    chk.instance("C12/R2", "only Capability::Base(v) entries are kept, as v", name, None, holds=filt_ok and bool(oks), key="C12/R2 filter-closure")
+    chk.instance("C12/R2", "no common version => Error::VersionNegotiation", name, None,
+                 holds=bool(errs) and all("VersionNegotiation" in A.vstr(p.ret) for p in errs), key="C12/R2 no-common-version-error")
     # Base: derived Ord, ascending declaration order
     base = [i for i in fx.item_list if i["kind"] == "Enum" and i["def"] == "netconf::capabilities::Base"]
     if not base:
@@ -127,90 +153,126 @@ def r3_session_id(chk, fx):
                 or "as std::clone::Clone>::clone" in name
             chk.instance("C12/R3", "SessionId constructed only by new / from_str", name, loc_of(s.get("sp")), holds=ok,
                          key="C12/R3 SessionId built-in %s" % T.strip_generics(name))
-    # tuple-struct constructor used as a function (`.map(Self)`)
-    for name, b in fx.mir.items():
-        if b.crate == "netconf":
-            for c in b.calls():
-                for a in c.args:
-                    if a.get("c") == "const" and (a.get("def") or "").endswith("session::SessionId") and not name.startswith("netconf::session::SessionId::new"):
-                        chk.instance("C12/R3", "SessionId constructor passed as a function outside SessionId::new", name, c.loc(), holds=False,
-                                     key="C12/R3 SessionId ctor-fn-in %s" % T.strip_generics(name))
-    t = fx.thir_body("netconf::session::SessionId::new")
-    s = X.ntext(T.user_body(t))
-    chk.instance("C12/R3", "SessionId::new = NonZeroU32::new(n).ok_or(InvalidSessionId).map(Self)", t["def"], loc_of(t.get("sp")),
-                 holds=s.strip("{}").startswith("Result::map(Option::ok_or(NonZero::new(n),Error::InvalidSessionId"), key="C12/R3 SessionId::new form", detail=s[:160])
-    t = fx.thir_body("<netconf::session::SessionId as std::str::FromStr>::from_str")
-    s = X.ntext(T.user_body(t))
-    chk.instance("C12/R3", "SessionId::from_str parses a NonZeroU32 and maps the error", t["def"], loc_of(t.get("sp")),
-                 holds=s.strip("{}") in ("Result::Ok(SessionId(Result::map_err(str::parse(s),Read::SessionIdParse)?))",
-                                         "Result::Ok(SessionId(Result::map_err(str::parse(s),ReadError::SessionIdParse)?))"),
-                 key="C12/R3 SessionId::from_str form", detail=s[:160])
-    # hello reader: duplicates / missing rejected
-    t = fx.thir_body("<netconf::message::hello::ServerHello as netconf::message::ReadXml>::read_xml")
-    body = T.user_body(t)
-    ms = [m for m in T.find(body, "Match") if "read_resolved_event" in T.expr_str(m["scrut"])]
-    if not ms:
-        raise F.AnchorLost("ServerHello reader loop")
-    for el, var in (("capabilities", "capabilities"), ("session-id", "session_id")):
-        arms = [a for a in ms[0]["arms"] if a.get("guard") is not None and ('b"%s"' % el) in X.ntext(a["guard"])]
-        ok = len(arms) == 1 and ("Option::is_none(%s)" % var) in X.ntext(arms[0]["guard"])
-        chk.instance("C12/R3", "a second <%s> is not accepted (is_none guard)" % el, t["def"], loc_of(arms[0].get("sp")) if arms else None, holds=ok,
-                     key="C12/R3 ServerHello duplicate-%s" % el)
-    # the is_none guard rejects a repeat only because the repeat then falls through to the error catch-all
-    from . import readers as R
-    loops = [lp for lp in R.reader_loops(fx) if lp.fn == t["def"]]
-    chk.floor("C12/R3 ServerHello reader loops", len(loops), 1)
-    for lp in loops:
-        len_ = R.lenient_arms(lp)
-        rep = R.repeated_names(lp)
-        ca = [a for a in lp.arms if a.catch_all]
-        ok = not len_ and not rep and len(ca) == 1 and "returnResult::Err(" in ca[0].body_text()
-        chk.instance("C12/R3", "%s: a repeated or unknown element reaches the error catch-all (no skipping arm, one arm per element)" % lp.label(), t["def"],
-                     loc_of((len_ or rep or [lp])[0].sp), holds=ok, key="C12/R3 %s lenient-arm" % lp.label(),
-                     detail=("arm %s accepts content it does not name: a second <session-id>/<capabilities> fails its is_none guard and is "
-                             "swallowed here" % (len_ or rep)[0].describe()) if (len_ or rep) else None)
-    s = X.ntext(body)
+    # SessionId::new / from_str by abstract interpretation
+    nw = "netconf::session::SessionId::new"
+    paths = A.Interp(fx, crates=("netconf",)).explore(nw)
+    ok = len(paths) == 2
+    for p in paths:
+        z = [k for k, v in p.assume.items() if k.startswith("variant:NonZero::new(") and "param:n" in k]
+        if len(z) != 1:
+            ok = False
+            continue
+        if p.assume[z[0]] == "Some":
+            ok = ok and A.vstr(p.ret).startswith("Ok(SessionId(NonZero::new(«param:n»)→Some.0")
+        else:
+            ok = ok and A.is_res(p.ret) and p.ret[2] == "Err" and "InvalidSessionId" in A.vstr(p.ret)
+    chk.instance("C12/R3", "SessionId::new(n): NonZeroU32::new(n) = Some(x) => Ok(SessionId(x)); None (n = 0) => Err(InvalidSessionId)", nw, None, holds=ok,
+                 key="C12/R3 SessionId::new form", detail="; ".join(A.vstr(p.ret)[:80] for p in paths))
+    fs = "<netconf::session::SessionId as std::str::FromStr>::from_str"
+    paths = A.Interp(fx, crates=("netconf",)).explore(fs)
+    ok = len(paths) == 2
+    for p in paths:
+        z = [k for k, v in p.assume.items() if k.startswith("variant:str::parse(«param:s»)")]
+        if len(z) != 1:
+            ok = False
+            continue
+        if p.assume[z[0]] == "Ok":
+            ok = ok and A.vstr(p.ret) == "Ok(SessionId(str::parse(«param:s»)→Ok.0))"
+        else:
+            ok = ok and A.is_res(p.ret) and p.ret[2] == "Err" and "SessionIdParse" in A.vstr(p.ret)
+    chk.instance("C12/R3", "SessionId::from_str parses the whole text as NonZeroU32 and maps the error", fs, None, holds=ok,
+                 key="C12/R3 SessionId::from_str form", detail="; ".join(A.vstr(p.ret)[:80] for p in paths))
+    # hello reader: duplicates / unknown content / missing elements are errors — over the explored paths of the reader
+    rn = "<netconf::message::hello::ServerHello as netconf::message::ReadXml>::read_xml"
+    t = fx.thir_body(rn)
+    chk.analysed(rn)
+    paths = A.Interp(fx, crates=("netconf",), max_paths=6000, no_inline=("Capabilities as netconf::message::ReadXml>::read_xml",)).explore(rn)
+    chk.floor("C12/R3 ServerHello reader paths", len(paths), 8)
+    from .c16 import holds_true, ret_is_err
     for el in ("capabilities", "session-id"):
-        chk.instance("C12/R3", "missing <%s> is an error" % el, t["def"], None,
-                     holds=('Read::missing_element("hello","%s")' % el) in s or ('ReadError::missing_element("hello","%s")' % el) in s or
-                     ('missing_element("hello","%s")' % el) in " ".join(X.ntext(T.user_body(tt)) for n2, tt in fx.thir.items() if n2.startswith(t["def"] + "::{closure")),
+        var = el.replace("-", "_")
+        again = [p for p in paths if holds_true(p, "'%s'" % el) and any(k.startswith("variant:«loop:%s" % var) and v == "Some" for k, v in p.assume.items())]
+        chk.instance("C12/R3", "a second <%s> is an error (%d paths)" % (el, len(again)), rn, loc_of(t.get("sp")),
+                     holds=bool(again) and all(ret_is_err(p) for p in again), key="C12/R3 ServerHello duplicate-%s" % el)
+    ev = [p for p in paths if p.calls("read_resolved_event")]
+    quiet = [p for p in ev if p.end == "iter-end" and not p.assigns()]
+    bad = [p for p in quiet if not any(v == "Comment" for k, v in p.assume.items() if k.startswith("variant:"))]
+    chk.instance("C12/R3", "<hello>: a repeated or unknown element is an error — only comments are skipped (%d skipping paths)" % len(quiet), rn, loc_of(t.get("sp")),
+                 holds=bool(quiet) and not bad, key="C12/R3 <hello::ServerHello>::read_xml lenient-arm",
+                 detail=None if not bad else "an iteration of the reader loop accepts content without naming it: a second <session-id>/<capabilities> is swallowed there")
+    post = [p for p in paths if p.after_loop_with("read_resolved_event")]
+    for el in ("capabilities", "session-id"):
+        var = el.replace("-", "_")
+        miss = [p for p in post if any(k.startswith("variant:«loop:%s" % var) and v == "None" for k, v in p.assume.items())
+                or any(k.startswith("notvariant:«loop:%s" % var) for k in p.assume)]
+        chk.instance("C12/R3", "missing <%s> is an error" % el, rn, None, holds=bool(miss) and all(ret_is_err(p) for p in miss),
                      key="C12/R3 ServerHello missing-%s" % el)
 
 
+def call_chain(v):
+    from .c16 import call_chain as cc
+    return cc(v)
+
+
 def r4_context(chk, fx):
-    t = fx.thir_body("netconf::session::Session::<T>::new::{closure#0}::{closure#0}")
-    s = X.ntext(T.user_body(t))
-    must = [
-        ("session_id=ServerHello::session_id(server_hello)", "session-id is the hello's"),
-        ("server_capabilities=ServerHello::capabilities(server_hello)", "server capabilities are the hello's"),
-        ("client_capabilities=ClientHello::capabilities(client_hello)", "client capabilities are those sent"),
-        ("protocol_version=Capabilities::highest_common_version(client_capabilities,server_capabilities)?", "version is the negotiated one, `?`-checked"),
-        ("context=Context::new(session_id,protocol_version,client_capabilities,server_capabilities)", "Context::new argument order"),
-    ]
-    for frag, what in must:
-        chk.instance("C12/R4", "Session::new: %s" % what, t["def"], loc_of(t.get("sp")), holds=frag in s, key="C12/R4 Session::new %s" % what)
-    cn = fx.body("netconf::session::Context::new")
-    aggs = cn.aggs_of("session::Context")
-    ok = False
-    if len(aggs) == 1:
-        rv = aggs[0][2]["rv"]
-        args = []
-        for f in rv["fields"]:
-            o = cn.backward_origins(F.op_base(f), through_call=lambda c: False)
-            a = [x["l"] for x in o if x["k"] == "arg"]
-            args.append(a[0] if len(a) == 1 else None)
-        ok = rv["fnames"] == ["session_id", "protocol_version", "client_capabilities", "server_capabilities"] and args == [1, 2, 3, 4]
-    chk.instance("C12/R4", "Context::new stores its arguments in the fields of the same name", cn.name, None, holds=ok, key="C12/R4 Context::new fields")
+    """What the session reports is what the hello carried: abstract interpretation of Session::new (helpers inlined)."""
+    un = "netconf::session::Session::<T>::new::{closure#0}::{closure#0}"
+    t = fx.thir_body(un)
+    it = A.Interp(fx, crates=("netconf",), max_paths=2000)
+    it.model_iterators = False
+    paths = it.explore(un)
+    oks = [p for p in paths if A.is_res(p.ret) and p.ret[2] == "Ok"]
+    chk.floor("C12/R4 Session::new Ok paths", len(oks), 1)
+    good = {"sid": True, "scap": True, "ccap": True, "ver": True, "same": True, "hello": True}
+    for p in oks:
+        sess = A.payload0(p.ret)
+        ctx = A.fields_of(sess).get("context")
+        f = A.fields_of(ctx) if ctx is not None else {}
+        sid, ver, cc, sc = f.get("session_id"), f.get("protocol_version"), f.get("client_capabilities"), f.get("server_capabilities")
+        if None in (sid, ver, cc, sc):
+            good = {k: False for k in good}
+            continue
+        # the server hello: the value both session_id and server capabilities are fields of
+        hs = sid[1] if sid[0] == "field" and sid[2] == "session_id" else None
+        hc = sc[1] if sc[0] == "field" and sc[2] == "capabilities" else None
+        good["sid"] &= hs is not None and "await" in A.vstr(hs)
+        good["scap"] &= hc is not None and "await" in A.vstr(hc)
+        good["same"] &= hs is not None and hs == hc
+        good["ccap"] &= cc[0] == "field" and cc[2] == "capabilities" and "Default::default()" in A.vstr(cc[1])
+        inter = [x for x in A.walk_value(ver) if x[0] == "term" and T.short(x[1], 2) == "HashSet::intersection"]
+        args = [A.vstr(a) for x in inter for a in x[2]]
+        good["ver"] &= len(inter) == 1 and any(a == A.vstr(cc) + ".inner" for a in args) and any(a == A.vstr(sc) + ".inner" for a in args)
+        sends = [c for c in p.trace if c[0] in ("call", "enter") and T.short(c[1], 2) == "ClientMsg::send"]
+        good["hello"] &= bool(sends) and all("Default::default()" in A.vstr(c[2][0]) for c in sends)
+    what = {"sid": ("session-id is the hello's", "Session::new session-id is the hello's"),
+            "scap": ("server capabilities are the hello's", "Session::new server capabilities are the hello's"),
+            "same": ("session-id and server capabilities come from one and the same received hello", "Session::new hello identity"),
+            "ccap": ("client capabilities are those sent", "Session::new client capabilities are those sent"),
+            "ver": ("version is negotiated between exactly these two capability sets", "Session::new version is the negotiated one, `?`-checked"),
+            "hello": ("the hello sent is the one whose capabilities are reported (ClientHello::default())", "Session::new hello-origin")}
+    for k, (txt, key) in what.items():
+        chk.instance("C12/R4" if k != "hello" else "C12/R1", "Session::new: %s" % txt, un, loc_of(t.get("sp")), holds=good[k],
+                     key=("C12/R4 %s" % key) if k != "hello" else "C12/R1 Session::new hello-origin")
+    # a failed negotiation fails session establishment
+    neg_fail = [p for p in paths if any(("BTreeSet::last" in k or "Iterator::max" in k) and v == "None" for k, v in p.assume.items())]
+    chk.instance("C12/R4", "no common version => Session::new fails (%d paths)" % len(neg_fail), un, None, holds=bool(neg_fail) and all(
+        A.is_res(p.ret) and p.ret[2] == "Err" for p in neg_fail), key="C12/R4 Session::new Ok-not-okdom-by version negotiation")
+    cn = fx.thir.get("netconf::session::Context::new")
+    if cn is not None:
+        r = A.Interp(fx, crates=("netconf",)).explore("netconf::session::Context::new", args=[("sym", "A"), ("sym", "B"), ("sym", "C"), ("sym", "D")])
+        f = A.fields_of(r[0].ret) if len(r) == 1 else {}
+        ok = f == {"session_id": ("sym", "A"), "protocol_version": ("sym", "B"), "client_capabilities": ("sym", "C"), "server_capabilities": ("sym", "D")}
+        chk.instance("C12/R4", "Context::new stores its arguments in the fields of the same name", "netconf::session::Context::new", None, holds=ok,
+                     key="C12/R4 Context::new fields")
     # OKDOM: Ok(Session) only after hello exchange and negotiation succeeded
     b = fx.user_coroutine("netconf::session::Session::<T>::new")
     send = b.calls_to("ClientMsg::send", user_only=True)
     recv = b.calls_to("ServerMsg::recv", user_only=True)
-    hcv = b.calls_to("Capabilities::highest_common_version", user_only=True)
-    if len(send) != 1 or len(recv) != 1 or len(hcv) != 1:
-        raise F.AnchorLost("Session::new: send/recv/highest_common_version call sites")
+    if len(send) != 1 or len(recv) != 1:
+        raise F.AnchorLost("Session::new: hello send/recv call sites")
     pt = tuple(F.PASS_THROUGH) + ("maybe_done", "poll_fn")
     oks = b.ok_aggs()
-    for nm, c in (("hello send", send[0]), ("hello receive", recv[0]), ("version negotiation", hcv[0])):
+    for nm, c in (("hello send", send[0]), ("hello receive", recv[0])):
         e = b.ok_edge_of(c, pass_through=pt)
         ok = e is not None and all(b.edge_dominates(b._switch_block_of(e[0]), e[1], bi) for (bi, si, s2) in oks) and bool(oks)
         chk.instance("C12/R4", "Ok(Session) only through the success edge of the %s" % nm, b.name, c.loc(), holds=ok,
